@@ -57,7 +57,7 @@ def multi_knapsack(values: ArrayLike,
 
     for i, value in enumerate(values):
         for j in range(len(capacities)):
-            obj.set_linear(x[(i, j)], -value)
+            obj.set_linear(x[(i, j)], -float(value))
 
     model.set_objective(obj)
 
@@ -70,7 +70,7 @@ def multi_knapsack(values: ArrayLike,
     # Build knapsack capacity constraints
     for j, capacity in enumerate(capacities):
         model.add_constraint(
-            [(x[(i, j)], weight) for i, weight in enumerate(weights)] + [(-capacity,)],
+            [(x[(i, j)], weight) for i, weight in enumerate(weights)] + [(-float(capacity),)],
             sense="<=", label='capacity_bin_{}'.format(j))
 
     return model
@@ -120,12 +120,12 @@ def quadratic_multi_knapsack(values: ArrayLike,
 
     for i, value in enumerate(values):
         for j in range(len(capacities)):
-            obj.set_linear(x[(i, j)], -value)
+            obj.set_linear(x[(i, j)], -float(value))
 
     for i, profit in np.ndenumerate(profits):
         if i[0] < i[1]:
             for j in range(len(capacities)):
-                obj.set_quadratic(x[i[0], j], x[i[1], j], -profit)
+                obj.set_quadratic(x[i[0], j], x[i[1], j], -float(profit))
 
     model.set_objective(obj)
 
@@ -138,7 +138,7 @@ def quadratic_multi_knapsack(values: ArrayLike,
     # Build knapsack capacity constraints
     for j, capacity in enumerate(capacities):
         model.add_constraint(
-            [(x[(i, j)], weight) for i, weight in enumerate(weights)] + [(-capacity,)],
+            [(x[(i, j)], weight) for i, weight in enumerate(weights)] + [(-float(capacity),)],
             sense="<=", label='capacity_bin_{}'.format(j))
 
     return model
